@@ -43,6 +43,15 @@ def generate(rng, tier):
             tail.append({"op": "rename", "src": f, "dst": f + ".ren", "fault": "rename_file"})
         tail.append(scen.cmd("create", "@R", "-dr", *fm, *(["-n"] if rng.random() < 0.15 else [])))
         sc["ops"] += tail
+    if rng.random() < 0.05:
+        # a run that fails while the manifest is being serialised (a name or comment XML 1.0 cannot carry): whatever it
+        # leaves behind under a manifest name must still be a valid manifest
+        k = rng.randrange(2)
+        if k == 0:
+            sc["ops"] += [{"op": "write", "path": "bad\x1fname.mov", "c": {"text": "x" * 9}, "fault": "add_file_with_control_char"},
+                          scen.cmd("create", "@R", "-h", "md5"), scen.cmd("create", "@R", "-h", "md5")]
+        else:
+            sc["ops"] += [scen.cmd("create", "@R", "-h", "md5", "--comment", "vertical\x0btab")]
     if rng.random() < 0.12:
         # (nearly) empty worlds: empty root folder or only empty directories
         sc["world"]["tree"] = {} if rng.random() < 0.5 else {"E": {"t": "d"}, "E/F": {"t": "d"}}
